@@ -291,19 +291,24 @@ def rule_r3(prog, res) -> None:
             n_rm += 1
             res.touch(fi)
             cfg = cfg or cfg_of(fi.node)
-            for n in cfg.node_containing(call):
-                good = False
-                for d in cfg.dom_chain(n):
-                    if d.kind != "branch":
-                        continue
-                    if not _mentions_marker(prog, fi, d.test.expr, marker):
-                        continue
-                    other = branch_nodes_of(cfg, d.test).get(not d.polarity)
-                    if other is not None and raise_dominated_by(cfg, other):
-                        good = True
-                        break
+            # decided on the symbolic store (helpers looked through): on every path that reaches the rmtree the
+            # marker file was found to exist
+            from .. import symx
+            from ..effects import const_str
+
+            def is_marker_exists(t) -> bool:
+                if isinstance(t, ast.Call) and isinstance(t.func, ast.Attribute) and t.func.attr in ("exists", "is_file"):
+                    r = t.func.value
+                    return isinstance(r, ast.BinOp) and isinstance(r.op, ast.Div) and const_str(prog, fi, r.right) == marker
+                return False
+
+            rm_paths = [(p, ev) for p in symx.explore(prog, fi, inline=symx.inline_private_helpers(prog)) for ev in p.calls("rmtree") if ev.node is call]
+            if not rm_paths:
+                raise AnalysisError(f"C09.R3: no explored path of {fi.short} reaches the rmtree call")
+            for n in cfg.node_containing(call)[:1]:
+                good = all(any(pol and is_marker_exists(t) for t, pol in p.literals()) for p, _ in rm_paths)
                 if good:
-                    res.ok("C09.R3", res.site(fi, norm_stmt(call)), f"rmtree is dominated by a test on '{marker}' whose other branch raises")
+                    res.ok("C09.R3", res.site(fi, norm_stmt(call)), f"every path to the rmtree ({len(rm_paths)}) has found '{marker}' to exist; the other outcome raises")
                 else:
                     res.violation(
                         "C09.R3",
@@ -429,6 +434,42 @@ def rule_r5(prog, res) -> None:
                 res.ok("C09.R5", res.site(m, "DataChunk.create"), "chunk built by DataChunk.create with chkfinite left on")
     if len(readers) < 4:
         raise AnalysisError(f"C09.R5: only {len(readers)} readers with _get_next_chunk found, expected >= 4")
+    # (a') HDF5 datasets are independent arrays: a reader on an h5py.File validates the common length of all selected
+    #      datasets when it is opened (a per-chunk check sees equal slice lengths until one dataset runs out)
+    from .. import symx
+
+    cla_ = prog.func("common_len_assert")
+    n_hdf = 0
+    for ci in readers:
+        S_ = summaries(prog)
+        opens_hdf = any(
+            any(e == "h5py.File" for e in prog.resolve_call(f, c).ext_names())
+            for m_ in ci.methods.values()
+            for f in [m_]
+            for c in calls_in(f)
+        )
+        if not opens_hdf:
+            continue
+        n_hdf += 1
+        init = ci.methods.get("__init__")
+        if init is None:
+            raise AnalysisError(f"C09.R5: HDF reader {ci.name} has no constructor")
+        res.touch(init)
+        paths = [p for p in symx.explore(prog, init, env={"on_root()": True, "on_worker()": False}, inline=symx.inline_private_helpers(prog, public={"common_len_assert"})) if p.outcome != "raise"]
+        unchecked = [p for p in paths if not any(cla_ in prog.resolve_call(ev.fi, ev.node).funcs() and ev.expr.args and symx.mentions(ev.expr.args[0], lambda y: isinstance(y, ast.Attribute) and y.attr == "_columns") for ev in p.calls())]
+        if unchecked or not paths:
+            res.violation(
+                "C09.R5",
+                init,
+                init.node,
+                f"{ci.name} opens an HDF5 file without validating that all selected datasets have the same length: columns of different length are paired row by row until the shorter one ends "
+                "(rows beyond it are dropped or reported only by a later chunk)",
+                key_extra="hdf-common-length",
+            )
+        else:
+            res.ok("C09.R5", res.site(init, "common_len_assert"), "the common length of all selected datasets is validated on the root rank when the file is opened")
+    if n_hdf == 0:
+        raise AnalysisError("C09.R5: no reader on an h5py.File found")
     # (b) DataChunk.create: id-range check whenever ids are present, common length before allocation,
     #     checked conversion for every column
     res.touch(create)
